@@ -27,6 +27,25 @@
 //	           the sandbox (victim directory, TMPDIR, decoys, working directory), names sharing a prefix with layer-<i> / the image directory,
 //	           symbolic and hard links to those places followed by entries written THROUGH the links, in random order
 //
+//	load3 <hist> <fail> <kind> <pos> <decoys> <seed> <req> <entry>         (load2 … = load3 … A v)
+//	  hist   also X = a layer with an archive whose history entry says EmptyLayer (invalid history: the loader falls back to one chain
+//	           layer per archive and drops the history)
+//	  kind   also k  a regular file followed by a DIRECTORY entry beneath it (handleDir: MkdirAll fails)      (fatal)
+//	              w  whiteouts, an opaque marker, a directory entry after its contents, the names "/", ".", "a/." (nothing wrong)
+//	              g  the image's ConfigFile() returns an error (no history: nothing wrong)
+//	              z  the entry points are called the way a careless caller does: image.FromTarball on a path that does not exist and on a
+//	                 file that is no tarball, image.FromV1Image with image.DefaultConfig(), unpack.NewUnpacker with the zero configuration
+//	                 and without a requirer, UnpackSquashed("" / nil image), UnpackSquashedFromTarball on a missing and on a truncated
+//	                 tarball - every one must fail (or load) without touching anything; the case itself then loads the image normally
+//	  req    = A require.FileRequirerAll, N FileRequirerNone, P FileRequirerPaths of d<i>/f0 and a few hostile names: the loader removes
+//	           the backing files of what is not required
+//	  entry  = v image.FromV1Image, t image.FromTarball on the image saved below the sandbox (not with the injected-error kinds e y g)
+//
+// After the load life cycle every case (but m and p, whose TMPDIR is unusable) ALSO unpacks the same image with unpack.UnpackSquashed
+// into <root>/unpacked (options drawn from the seed: MaxPass, MaxFileBytes, requirer, symlink error strategy, unsupported resolution):
+// uerr, and the same three observations (sandbox outside <root>/unpacked unchanged incl. TMPDIR: image-tar-tmp-* removed; no link
+// inside leading out).
+//
 // The sandbox of a case is <root>/{tmp (TMPDIR), cwd, tmp-sibling, victim}; it is snapshotted recursively (type, mode, size, mtime,
 // content hash, link target) before the load, after it (minus the image directory) and after CleanUp.
 //
@@ -35,6 +54,8 @@
 //	partial=<1 iff layer directories with files existed … only observable on success> clean=<entries in TMPDIR after CleanUp, or after the failed load>
 //	out=<-|hex: what changed anywhere in the sandbox outside the image directory (after the load; after CleanUp: anywhere at all)>
 //	esc=<-|hex: symbolic links (or other non-file non-directory objects) found on disk inside the image directory that lead out of it>
+//	acc=<0|1: ChainLayers() returns one chain layer per history entry / archive and Size() is not negative>
+//	uerr=<0|1|-> uout=<-|hex> uesc=<-|hex> udots=<0|1: some relative link target of the image has a ".." component>
 package main
 
 import (
@@ -53,12 +74,14 @@ import (
 	"strconv"
 	"strings"
 
+	"github.com/google/go-containerregistry/pkg/name"
 	v1 "github.com/google/go-containerregistry/pkg/v1"
 	"github.com/google/go-containerregistry/pkg/v1/empty"
 	"github.com/google/go-containerregistry/pkg/v1/mutate"
 	"github.com/google/go-containerregistry/pkg/v1/tarball"
 	"github.com/google/osv-scalibr/artifact/image/layerscanning/image"
 	"github.com/google/osv-scalibr/artifact/image/require"
+	"github.com/google/osv-scalibr/artifact/image/unpack"
 	"github.com/google/osv-scalibr/log"
 
 	"verif/harness/hx"
@@ -118,6 +141,20 @@ func layerBytes(i int, bad bool, kind byte, pos int, hs []hostile, subst func(st
 			must(tw.WriteHeader(&tar.Header{Name: "lnk", Typeflag: tar.TypeSymlink, Mode: 0o777, Linkname: ""}))
 		case 'n':
 			file(tw, strings.Repeat("n", 300), 1)
+		case 'k':
+			file(tw, "a", 1)
+			must(tw.WriteHeader(&tar.Header{Name: "a/b/", Typeflag: tar.TypeDir, Mode: 0o755}))
+		case 'w':
+			file(tw, "w/x", 1)
+			file(tw, "w/.wh.x", 0)
+			file(tw, "w/.wh..wh..opq", 0)
+			file(tw, ".wh.w2", 0)
+			file(tw, "w3/inner/f", 1)
+			must(tw.WriteHeader(&tar.Header{Name: "w3/inner/", Typeflag: tar.TypeDir, Mode: 0o700}))
+			must(tw.WriteHeader(&tar.Header{Name: "w3/", Typeflag: tar.TypeDir, Mode: 0o711}))
+			for _, n := range []string{"/", ".", "./", "w3/.", "w3/inner/..", "//"} {
+				_ = tw.WriteHeader(&tar.Header{Name: n, Typeflag: tar.TypeDir, Mode: 0o755})
+			}
 		case 'd':
 			file(tw, "p/q", 1)
 			file(tw, "p", 1)
@@ -231,6 +268,14 @@ type wrapImage struct {
 	v1.Image
 	bad       int // v1 layer index whose Uncompressed fails, or -1
 	layersErr bool
+	configErr bool
+}
+
+func (w wrapImage) ConfigFile() (*v1.ConfigFile, error) {
+	if w.configErr {
+		return nil, errors.New("injected: no config file")
+	}
+	return w.Image.ConfigFile()
 }
 
 func (w wrapImage) Layers() ([]v1.Layer, error) {
@@ -368,6 +413,8 @@ type lcase struct {
 	pos    int
 	decoys int
 	seed   int64
+	req    byte // A N P
+	entry  byte // v t
 }
 
 func (c lcase) String() string {
@@ -375,7 +422,16 @@ func (c lcase) String() string {
 	if c.fail >= 0 {
 		f = strconv.Itoa(c.fail)
 	}
-	return fmt.Sprintf("load2 %s %s %c %d %d %d", c.hist, f, c.kind, c.pos, c.decoys, c.seed)
+	if c.req == 0 {
+		c.req = 'A'
+	}
+	if c.entry == 0 {
+		c.entry = 'v'
+	}
+	if c.req == 'A' && c.entry == 'v' {
+		return fmt.Sprintf("load2 %s %s %c %d %d %d", c.hist, f, c.kind, c.pos, c.decoys, c.seed)
+	}
+	return fmt.Sprintf("load3 %s %s %c %d %d %d %c %c", c.hist, f, c.kind, c.pos, c.decoys, c.seed, c.req, c.entry)
 }
 
 const tmpLen = 4055 // with "/osv-scalibr-image-scanning-" + 5..10 digits: at most 4093 bytes; "/layer-i" on top of that exceeds PATH_MAX
@@ -437,29 +493,119 @@ func run(base string, id int, c lcase) string {
 			l, err := tarball.LayerFromOpener(func() (io.ReadCloser, error) { return io.NopCloser(bytes.NewReader(b)), nil },
 				tarball.WithCompressionLevel(gzip.NoCompression))
 			must(err)
-			adds = append(adds, mutate.Addendum{Layer: l, History: v1.History{CreatedBy: fmt.Sprintf("cmd-%d", i)}})
+			adds = append(adds, mutate.Addendum{Layer: l, History: v1.History{CreatedBy: fmt.Sprintf("cmd-%d", i), EmptyLayer: c.hist[i] == 'X'}})
 		}
 		built, err := mutate.Append(empty.Image, adds...)
 		must(err)
-		var img v1.Image = wrapImage{Image: built, bad: badV1, layersErr: c.kind == 'y'}
+		var img v1.Image = wrapImage{Image: built, bad: badV1, layersErr: c.kind == 'y', configErr: c.kind == 'g'}
+		tarPath := ""
+		if c.entry == 't' && strings.IndexByte("eyg", c.kind) < 0 {
+			tag, err := name.NewTag("verif/img:latest")
+			must(err)
+			must(os.MkdirAll(filepath.Join(root, "store"), 0o755))
+			tarPath = filepath.Join(root, "store", "img.tar")
+			must(tarball.WriteToFile(tarPath, tag, built))
+		}
+		var requirer require.FileRequirer = &require.FileRequirerAll{}
+		switch c.req {
+		case 'N':
+			requirer = &require.FileRequirerNone{}
+		case 'P':
+			ps := []string{"victim/secret", "/k0-1/secret", "w/x", "after0"}
+			for i := range c.hist {
+				ps = append(ps, fmt.Sprintf("d%d/f0", i))
+			}
+			requirer = require.NewFileRequirerPaths(ps)
+		}
 		orig, _ := os.Getwd()
 		os.Setenv("TMPDIR", tmpdir)
 		must(os.Chdir(cwd))
 		defer os.Chdir(orig)
 		before := snap(root, "", obs)
-		cfg := &image.Config{MaxFileBytes: limit, MaxSymlinkDepth: 6, Requirer: &require.FileRequirerAll{}}
+		cfg := &image.Config{MaxFileBytes: limit, MaxSymlinkDepth: 6, Requirer: requirer}
 		if c.kind == 'v' {
-			cfg.MaxFileBytes = 0
+			switch c.pos % 3 { // the three ways a config is invalid
+			case 0:
+				cfg.MaxFileBytes = 0
+			case 1:
+				cfg.Requirer = nil
+			default:
+				cfg.MaxSymlinkDepth = -1
+			}
 		}
-		im, lerr := image.FromV1Image(img, cfg)
+		misuse := 0
+		if c.kind == 'z' {
+			bogus := filepath.Join(root, "store-bogus")
+			must(os.MkdirAll(bogus, 0o755))
+			must(os.WriteFile(filepath.Join(bogus, "not-a-tarball"), []byte("this is no tar archive\n"), 0o644))
+			var tb bytes.Buffer
+			tw := tar.NewWriter(&tb)
+			file(tw, "ok", 3)
+			file(tw, "cut", 40)
+			must(tw.Flush())
+			must(os.WriteFile(filepath.Join(bogus, "cut.tar"), tb.Bytes()[:tb.Len()-520], 0o644))
+			zb := snap(root, "", obs)
+			bad := func(err error) {
+				if err == nil {
+					misuse++
+				}
+			}
+			_, e1 := image.FromTarball(filepath.Join(bogus, "missing.tar"), cfg)
+			bad(e1)
+			_, e2 := image.FromTarball(filepath.Join(bogus, "not-a-tarball"), cfg)
+			bad(e2)
+			if d, e := image.FromV1Image(built, image.DefaultConfig()); e == nil {
+				_ = d.CleanUp()
+			} else {
+				misuse++
+			}
+			_, e3 := unpack.NewUnpacker(&unpack.UnpackerConfig{})
+			bad(e3)
+			_, e4 := unpack.NewUnpacker(&unpack.UnpackerConfig{SymlinkResolution: unpack.SymlinkRetain})
+			bad(e4)
+			_, e5 := unpack.NewUnpacker(&unpack.UnpackerConfig{SymlinkResolution: unpack.SymlinkRetain, SymlinkErrStrategy: unpack.SymlinkErrLog})
+			bad(e5)
+			u, e := unpack.NewUnpacker(unpack.DefaultUnpackerConfig())
+			must(e)
+			bad(u.UnpackSquashed("", built))
+			bad(u.UnpackSquashed(filepath.Join(bogus, "x"), nil))
+			bad(u.UnpackSquashedFromTarball(filepath.Join(bogus, "x"), filepath.Join(bogus, "missing.tar")))
+			if len(diff(zb, snap(root, "", obs))) > 0 {
+				misuse += 100
+			}
+			into := filepath.Join(bogus, "into")
+			must(os.MkdirAll(into, 0o755))
+			zb = snap(root, into, obs)
+			bad(u.UnpackSquashedFromTarball(into, filepath.Join(bogus, "cut.tar")))
+			if len(diff(zb, snap(root, into, obs))) > 0 {
+				misuse += 1000
+			}
+			before = snap(root, "", obs)
+		}
+		var im *image.Image
+		var lerr error
+		if tarPath != "" {
+			im, lerr = image.FromTarball(tarPath, cfg)
+		} else {
+			im, lerr = image.FromV1Image(img, cfg)
+		}
 		if lerr != nil && os.Getenv("C06LOAD_DEBUG") != "" {
 			fmt.Fprintln(os.Stderr, c.String(), "error:", lerr)
 		}
 		names, _ := os.ReadDir(obs)
 		left := len(names)
-		imgOK, partial := 0, 0
+		imgOK, partial, acc := 0, 0, 0
 		var changed, esc []string
 		if lerr == nil && im != nil {
+			if cls, e := im.ChainLayers(); e == nil && im.Size() >= 0 {
+				want := len(c.hist)
+				if strings.Contains(c.hist, "X") || c.kind == 'g' { // invalid / missing history: one chain layer per archive
+					want = len(c.hist) - strings.Count(c.hist, "E")
+				}
+				if len(cls) == want {
+					acc = 1
+				}
+			}
 			if strings.HasPrefix(im.ExtractDir, obs+string(filepath.Separator)) {
 				if st, e := os.Stat(im.ExtractDir); e == nil && st.IsDir() {
 					imgOK = 1
@@ -495,7 +641,55 @@ func run(base string, id int, c lcase) string {
 		if len(ns) > 0 {
 			leftNames = hx.Hex(strings.Join(ns, ","))
 		}
-		return fmt.Sprintf("err=%s left=%d img=%d partial=%d clean=%d names=%s out=%s esc=%s", hx.B(lerr != nil), left, imgOK, partial, len(after), leftNames, hexOr(changed), hexOr(esc))
+		// ---- the same image through the squashed unpacker
+		uerr, uout, uesc, udots := "-", "-", "-", 0
+		if c.kind != 'm' && c.kind != 'p' {
+			ur := rand.New(rand.NewSource(c.seed*7 + int64(len(c.hist))*13 + int64(c.pos)))
+			ucfg := unpack.DefaultUnpackerConfig().WithMaxPass(ur.Intn(4)).WithMaxFileBytes([]int64{0, 2, 3, 1 << 20}[ur.Intn(4)]).WithRequirer(requirer)
+			if ur.Intn(3) == 0 {
+				ucfg.SymlinkErrStrategy = unpack.SymlinkErrReturn
+			}
+			if ur.Intn(12) == 0 {
+				ucfg = ucfg.WithSymlinkResolution(unpack.SymlinkIgnore) // UnpackSquashed refuses it
+			}
+			udir := filepath.Join(root, "unpacked")
+			must(os.MkdirAll(udir, 0o755))
+			ubefore := snap(root, udir, obs)
+			u, e := unpack.NewUnpacker(ucfg)
+			must(e)
+			ue := u.UnpackSquashed(udir, img)
+			uerr = hx.B(ue != nil)
+			var ch []string
+			for _, d := range diff(ubefore, snap(root, udir, obs)) {
+				ch = append(ch, d)
+			}
+			uout, uesc = hexOr(ch), hexOr(escapes(udir))
+			if ls, e := built.Layers(); e == nil {
+				for _, l := range ls {
+					rc, e := l.Uncompressed()
+					if e != nil {
+						continue
+					}
+					tr := tar.NewReader(rc)
+					for {
+						h, e := tr.Next()
+						if e != nil {
+							break
+						}
+						if (h.Typeflag == tar.TypeSymlink || h.Typeflag == tar.TypeLink) && !strings.HasPrefix(h.Linkname, "/") {
+							for _, seg := range strings.Split(h.Linkname, "/") {
+								if seg == ".." {
+									udots = 1
+								}
+							}
+						}
+					}
+					rc.Close()
+				}
+			}
+		}
+		return fmt.Sprintf("err=%s left=%d img=%d partial=%d clean=%d names=%s out=%s esc=%s acc=%d uerr=%s uout=%s uesc=%s udots=%d misuse=%d", hx.B(lerr != nil), left, imgOK, partial,
+			len(after), leftNames, hexOr(changed), hexOr(esc), acc, uerr, uout, uesc, udots, misuse)
 	})
 }
 
@@ -506,16 +700,19 @@ func parseCase(l string) lcase {
 		must(err)
 		return n
 	}
-	c := lcase{fail: -1}
+	c := lcase{fail: -1, req: 'A', entry: 'v'}
 	switch {
 	case len(t) == 5 && t[0] == "load":
 		c.hist = strings.Repeat("L", num(t[1]))
-	case len(t) == 7 && t[0] == "load2":
+	case (len(t) == 7 && t[0] == "load2") || (len(t) == 9 && t[0] == "load3"):
 		c.hist = t[1]
 		c.decoys = num(t[5])
 		s, err := strconv.ParseInt(t[6], 10, 64)
 		must(err)
 		c.seed = s
+		if len(t) == 9 {
+			c.req, c.entry = t[7][0], t[8][0]
+		}
 	default:
 		panic("bad case line " + l)
 	}
@@ -549,33 +746,34 @@ func main() {
 	// exhaustive over the small space: 1..4 layers x every failing position x every kind x 0..2 good entries before
 	for nl := 1; nl <= 4; nl++ {
 		hist := strings.Repeat("L", nl)
-		for _, kind := range []byte("-vymp") {
+		for _, kind := range []byte("-vympgz") {
 			for decoys := 0; decoys <= 2; decoys++ {
-				emit(lcase{hist, -1, kind, 0, decoys, 0})
+				emit(lcase{hist: hist, fail: -1, kind: kind, pos: decoys, decoys: decoys, req: "ANP"[decoys], entry: "vt"[(decoys+nl)%2]})
 			}
 		}
 		for fail := 0; fail < nl; fail++ {
-			for _, kind := range []byte("cthlndboue") {
+			for _, kind := range []byte("cthlndbouekw") {
 				for pos := 0; pos <= 2; pos++ {
-					emit(lcase{hist, fail, kind, pos, (fail + pos) % 3, 0})
+					emit(lcase{hist: hist, fail: fail, kind: kind, pos: pos, decoys: (fail + pos) % 3, req: "ANP"[(fail+pos+int(kind))%3], entry: "vt"[(pos+nl)%2]})
 				}
 			}
 		}
 	}
 	// empty-layer history entries around and between the layers, each failure exit once more
-	for _, hist := range []string{"E", "EE", "EL", "LE", "ELE", "LEL", "ELEL", "EELLE", "LEEL"} {
-		emit(lcase{hist, -1, '-', 0, 1, 0})
-		emit(lcase{hist, -1, 'p', 0, 1, 0})
+	for _, hist := range []string{"E", "EE", "EL", "LE", "ELE", "LEL", "ELEL", "EELLE", "LEEL", "X", "LX", "XEL", "ELXL"} {
+		emit(lcase{hist: hist, fail: -1, kind: '-', decoys: 1})
+		emit(lcase{hist: hist, fail: -1, kind: '-', decoys: 1, req: 'P', entry: 't'})
+		emit(lcase{hist: hist, fail: -1, kind: 'p', decoys: 1})
 		for fail := 0; fail < len(hist); fail++ {
-			if hist[fail] == 'L' {
-				for _, kind := range []byte("cte") {
-					emit(lcase{hist, fail, kind, 1, 2, 0})
+			if hist[fail] != 'E' {
+				for _, kind := range []byte("ctekw") {
+					emit(lcase{hist: hist, fail: fail, kind: kind, pos: 1, decoys: 2, req: "ANP"[fail%3]})
 				}
 			}
 		}
 	}
 	r := hx.Rng(o)
-	allKinds := "cthlndboue-vymp"
+	allKinds := "cthlndbouekw-vympgz"
 	for i := 0; i < o.N; i++ {
 		nl := 1 + r.Intn(5)
 		hist := make([]byte, nl)
@@ -585,16 +783,19 @@ func main() {
 			if r.Intn(5) == 0 {
 				hist[k] = 'E'
 			} else {
+				if r.Intn(12) == 0 {
+					hist[k] = 'X'
+				}
 				ls = append(ls, k)
 			}
 		}
-		c := lcase{hist: string(hist), fail: -1, kind: '-', decoys: r.Intn(3)}
+		c := lcase{hist: string(hist), fail: -1, kind: '-', decoys: r.Intn(3), req: "AANP"[r.Intn(4)], entry: "vvt"[r.Intn(3)]}
 		if i%4 != 0 || len(ls) == 0 { // three quarters: hostile entries in every archive, with or without a failure on top
 			c.seed = 1 + r.Int63n(1<<40)
 		}
 		if len(ls) > 0 && r.Intn(2) == 0 {
 			c.kind = allKinds[r.Intn(len(allKinds))]
-			if strings.IndexByte("-vymp", c.kind) < 0 {
+			if strings.IndexByte("-vympgz", c.kind) < 0 {
 				c.fail, c.pos = ls[r.Intn(len(ls))], r.Intn(4)
 			}
 		}
